@@ -278,8 +278,24 @@ def cross_module_backlink(draw, m):
     return dict(name='cross-module-backlink', A=decls, B={})
 
 
+def overloaded_functions(draw, m):
+    """overloads of one function that call each other: not a cycle (each overload is its own
+    object and a valid creation order exists)"""
+    from hypothesis import strategies as st
+    q = lambda n: f'{m}::{n}'   # noqa: E731
+    k = draw(st.integers(0, 2))
+    decls = [raw('ovf', 'function {NAME}(a: int64) -> int64 using (a + 1)')]
+    if k == 0:
+        decls.append(raw('ovf', f'function {{NAME}}(a: str) -> int64 using ({q("ovf")}(len(a)))'))
+    elif k == 1:
+        decls.append(raw('ovf', f'function {{NAME}}(a: str, b: str) -> int64 using ({q("ovf")}(len(a ++ b)))'))
+    else:
+        decls.append(raw('ovf', f'function {{NAME}}(a: array<int64>) -> int64 using (sum({q("ovf")}(array_unpack(a))))'))
+    return dict(name='overloaded-functions', A=[(m, d) for d in decls], B={})
+
+
 EDITABLE = [diamond, link_overload, three_levels, nested_collection]
-STATIC = [function_on_constraint, tracer_scopes, cross_module_backlink]
+STATIC = [function_on_constraint, tracer_scopes, cross_module_backlink, overloaded_functions]
 
 
 def draw_family(draw, mods, editable_only=False):
